@@ -4,7 +4,7 @@ CONSTANTS
   Kinds = {"watson", "cwmm", "cacgmm"}
   Stateful = {"watson", "cwmm"}
   Dims = {2, 3}
-  MaxCs = {500, 50}
+  MaxCs = {500, 50, 0}
   Datas = {1, 2}
   MaxLen = 5
 INVARIANT ImplRefinesAbs
